@@ -164,9 +164,9 @@ func normMtime(s string, known map[int64]bool) string {
 // ---------- the implementation interpreter ----------
 
 type fsImpl struct {
-	winVol string // Windows emulation: volume the virtual paths are mapped to ("" = the default volume)
-	win     bool // Windows-typed file system: virtual unix paths are mapped with FromUnixPath / back with ToSlash
-	osMode  bool // kernel oracle: OsFS on a tmpfs directory, paths re-rooted at `root`, virtual cwd
+	winVol  string // Windows emulation: volume the virtual paths are mapped to ("" = the default volume)
+	win     bool   // Windows-typed file system: virtual unix paths are mapped with FromUnixPath / back with ToSlash
+	osMode  bool   // kernel oracle: OsFS on a tmpfs directory, paths re-rooted at `root`, virtual cwd
 	root    string
 	vcwd    string
 	views   map[int]avfs.VFS
